@@ -2,8 +2,10 @@ package main
 
 import (
 	"fmt"
+	"github.com/cybergarage/go-redis/redis"
 	"strconv"
 	"strings"
+	"time"
 )
 
 func init() {
@@ -80,6 +82,80 @@ func arrayReply(ss []string) string {
 		fmt.Fprintf(&sb, "$%d\r\n%s\r\n", len(s), s)
 	}
 	return hx([]byte(sb.String()))
+}
+
+func init() {
+	opRunners["sserve"] = runSServe
+}
+
+// runSServe: the framework in front of a real (stateful) string store: what a derived command leaves in the store
+// is seen by the commands after it.  case: "sserve | <hex stream> | <floats>"
+func runSServe(toks []string) Result {
+	secs := splitSections(toks[1:])
+	var stream []byte
+	for _, s := range hexSegs(secs[1]) {
+		stream = append(stream, s...)
+	}
+	log := &eventLog{}
+	srv := redis.NewServer()
+	srv.SetCommandHandler(&linStore{double: &double{log: &eventLog{}}, m: map[string]string{}, jitter: 7})
+	conn := &scriptConn{log: log, segs: [][]byte{stream}}
+	done := make(chan struct{})
+	panicked := ""
+	go func() {
+		defer close(done)
+		defer func() {
+			if r := recover(); r != nil {
+				panicked = fmt.Sprint(r)
+			}
+		}()
+		srv.VerifServeConn(conn, nil)
+	}()
+	select {
+	case <-done:
+	case <-time.After(10 * time.Second):
+		return Result{Obs: "spin", Oracle: "fail:the connection loop did not return"}
+	}
+	if panicked != "" {
+		return Result{Obs: "panic", Oracle: "fail:panic " + trunc(panicked, 80)}
+	}
+	// oracle: the independent sequential specification
+	m := map[string]string{}
+	var writes []string
+	for _, e := range log.evs {
+		if strings.HasPrefix(e, "wr:") {
+			writes = append(writes, e[3:])
+		}
+	}
+	oracle := "ok"
+	rest := stream
+	for i := 0; len(rest) > 0; i++ {
+		node, r2, ok := refParse(rest)
+		if !ok || node == nil {
+			break
+		}
+		rest = r2
+		var argv []string
+		for _, el := range node.Es {
+			argv = append(argv, string(el.P))
+		}
+		argv[0] = strings.ToUpper(argv[0])
+		var want string
+		want, m = seqApply(m, argv)
+		w := hx([]byte(want))
+		if strings.HasPrefix(want, "-") {
+			w = "E"
+		}
+		if i >= len(writes) || writes[i] != w {
+			got := "nothing"
+			if i < len(writes) {
+				got = writes[i]
+			}
+			oracle = fmt.Sprintf("fail:request %d (%s) over a real store answered %s, Redis defines %s", i, strings.Join(argv, " "), trunc(got, 40), trunc(w, 40))
+			break
+		}
+	}
+	return Result{Obs: strings.Join(log.evs, " "), Oracle: oracle, Tags: []string{"nt", "real-store"}}
 }
 
 func genC12(tier string, seed uint64, emit func(string)) {
@@ -252,6 +328,28 @@ func genC12(tier string, seed uint64, emit func(string)) {
 	} {
 		emit(c12Line(prog, ""))
 	}
+	// string programs whose every reply is also checked against the independent sequential specification
+	strMenu := [][][]byte{bs("SET", "a", "1"), bs("SET", "a", "xyz"), bs("SET", "b", ""), bs("GET", "a"), bs("GET", "b"), bs("GET", "c"), bs("SETNX", "a", "5"), bs("SETNX", "c", "7"),
+		bs("GETSET", "a", "2"), bs("GETSET", "c", ""), bs("INCR", "a"), bs("INCR", "c"), bs("DECR", "b"), bs("INCRBY", "a", "10"), bs("DECRBY", "a", "3"), bs("INCRBY", "c", "0"),
+		bs("APPEND", "a", "7"), bs("APPEND", "c", ""), bs("APPEND", "b", ""), bs("APPEND", "b", "1"), bs("STRLEN", "a"), bs("STRLEN", "c"), bs("EXISTS", "a", "b", "c"), bs("EXISTS", "c"),
+		bs("MSETNX", "c", "1"), bs("MSETNX", "a", "1"), bs("MSET", "a", "4", "c", ""), bs("MGET", "a", "b", "c", "a"), bs("DEL", "a"), bs("DEL", "c"), bs("DEL", "a", "b", "c")}
+	ns := 1200
+	if tier == "thorough" {
+		ns = 40000
+	}
+	for i := 0; i < ns; i++ {
+		var prog [][][]byte
+		for j := 1 + r.Intn(10); j > 0; j-- {
+			prog = append(prog, strMenu[r.Intn(len(strMenu))])
+		}
+		emit(c12Line(prog, "seqspec"))
+		// the same program with a real string store behind the framework: state left by one command is what the next sees
+		var sb []byte
+		for _, argv := range prog {
+			sb = append(sb, requestBytes(argv, nil)...)
+		}
+		emit("sserve | " + hx(sb) + " | " + floatTable(prog...))
+	}
 	n := 1500
 	if tier == "thorough" {
 		n = 60000
@@ -269,6 +367,47 @@ func oracleC12(c *serveCase, extra []string, res *serveResult) (string, []string
 	tags := []string{"nt"}
 	if f := baseFail(res); f != "" {
 		return f, tags
+	}
+	if len(extra) >= 1 && extra[0] == "seqspec" {
+		// string-only program: every reply is compared with an independent sequential Redis specification
+		var stream []byte
+		for _, s := range c.segs {
+			stream = append(stream, s...)
+		}
+		var writes []string
+		for _, e := range res.events {
+			if strings.HasPrefix(e, "wr:") {
+				writes = append(writes, e[3:])
+			}
+		}
+		m := map[string]string{}
+		i := 0
+		for len(stream) > 0 {
+			node, rest, ok := refParse(stream)
+			if !ok || node == nil {
+				break
+			}
+			stream = rest
+			var argv []string
+			for _, el := range node.Es {
+				argv = append(argv, string(el.P))
+			}
+			argv[0] = strings.ToUpper(argv[0])
+			var want string
+			want, m = seqApply(m, argv)
+			w := hx([]byte(want))
+			if strings.HasPrefix(want, "-") {
+				w = "E"
+			}
+			if i >= len(writes) {
+				return fmt.Sprintf("fail:request %d (%s) was not answered", i, argv[0]), append(tags, "seqspec")
+			}
+			if writes[i] != w {
+				return fmt.Sprintf("fail:reply %s to request %d (%s) differs from what Redis defines (%s)", trunc(writes[i], 40), i, strings.Join(argv, " "), trunc(w, 40)), append(tags, "seqspec")
+			}
+			i++
+		}
+		return "ok", append(tags, "seqspec")
 	}
 	if len(extra) < 3 || extra[0] != "expect" {
 		return "na", tags
